@@ -53,11 +53,11 @@ type c14Field struct {
 var (
 	c14Scalar = &c14Node{kind: "scalar"}
 	c14Leaf   = &c14Node{kind: "struct", fields: []c14Field{{"A", 1, c14Scalar}, {"B", 2, c14Scalar}, {"L", 3, &c14Node{kind: "list", elem: c14Scalar}}, {"Edge", 63, c14Scalar}, {"Big", 70, c14Scalar}, {"Far", 300, c14Scalar}}}
-	c14Mid  = c14MakeMid(&c14Node{kind: "strmap", elem: c14Scalar})
-	c14Mid2 = c14MakeMid(&c14Node{kind: "list", elem: c14Scalar})
-	c14Root  = c14MakeRoot(c14Mid)
-	c14Root2 = c14MakeRoot(c14Mid2)
-	c14Descs [2]*thrift_reflection.TypeDescriptor
+	c14Mid    = c14MakeMid(&c14Node{kind: "strmap", elem: c14Scalar})
+	c14Mid2   = c14MakeMid(&c14Node{kind: "list", elem: c14Scalar})
+	c14Root   = c14MakeRoot(c14Mid)
+	c14Root2  = c14MakeRoot(c14Mid2)
+	c14Descs  [2]*thrift_reflection.TypeDescriptor
 )
 
 func c14MakeMid(plain *c14Node) *c14Node {
@@ -193,7 +193,12 @@ func c14GenPath(r *simrt.Rand, nonce string, u int) string {
 			case 1:
 				fmt.Fprintf(&sb, "{%d,%d}", r.Intn(3), 7+r.Intn(3))
 			default:
-				fmt.Fprintf(&sb, "{%d}", r.Intn(10))
+				if r.Chance(1, 8) {
+					// keys that need more than 53 bits (the descriptor has an i64-keyed map)
+					sb.WriteString([]string{"{9007199254740993}", "{1152921504606846981}", "{4611686018427387905}"}[r.Intn(3)])
+				} else {
+					fmt.Fprintf(&sb, "{%d}", r.Intn(10))
+				}
 			}
 			n = n.elem
 		}
@@ -525,54 +530,57 @@ func (c14Driver) Run(spec *simrt.Spec, agg *Agg, keep bool) *Outcome {
 					return
 				}
 				refs[i] = &ref{fm: fm, json: append([]byte(nil), j...), ans: c14Ans(fm)}
-				// (v) every path the mask was built from is a member of the mask (white list) /
-				// is excluded by it (black list): the weakest consequence of "answers as the paths prescribe"
-				for _, pth := range m.Paths {
-					if star {
-						break
-					}
-					in := fm.PathInMask(desc, pth)
-					if !m.Black && !in {
-						fail("own-path-not-in-mask", "own-path-not-in-mask", "white-list mask built from %q does not contain its own path %q", m.Paths, pth)
-					}
-				}
-				// (vi) star-free masks: membership of probe paths against the independent path-set model
-				if !star {
-					var set [][]string
-					okAll := true
+				checkMembership := func(x *fieldmask.FieldMask, who string) {
+					// (v) every path the mask was built from is a member of the mask (white list) /
+					// is excluded by it (black list): the weakest consequence of "answers as the paths prescribe"
 					for _, pth := range m.Paths {
-						ex, ok := c14Expand(pth)
-						if !ok {
-							okAll = false
+						if star {
 							break
 						}
-						set = append(set, ex...)
+						in := x.PathInMask(desc, pth)
+						if !m.Black && !in {
+							fail("own-path-not-in-mask", "own-path-not-in-mask", "%s: white-list mask built from %q does not contain its own path %q", who, m.Paths, pth)
+						}
 					}
-					if okAll {
-						for _, q := range c14Probes(set, c14RootOf(m.U)) {
-							qs := "$" + strings.Join(q, "")
-							covered, leads := false, false
-							for _, pp := range set {
-								if c14IsPrefix(pp, q) {
-									covered = true
-								}
-								if c14IsPrefix(q, pp) {
-									leads = true
-								}
-							}
-							got := fm.PathInMask(desc, qs)
-							want := covered || leads
-							if m.Black {
-								want = !covered
-							}
-							if got != want {
-								fail("path-membership", "path-membership", "mask (black=%v) built from %q: PathInMask(%q) = %v, the set of paths prescribes %v", m.Black, m.Paths, qs, got, want)
+					// (vi) star-free masks: membership of probe paths against the independent path-set model
+					if !star {
+						var set [][]string
+						okAll := true
+						for _, pth := range m.Paths {
+							ex, ok := c14Expand(pth)
+							if !ok {
+								okAll = false
 								break
 							}
-							nProbes++
+							set = append(set, ex...)
+						}
+						if okAll {
+							for _, q := range c14Probes(set, c14RootOf(m.U)) {
+								qs := "$" + strings.Join(q, "")
+								covered, leads := false, false
+								for _, pp := range set {
+									if c14IsPrefix(pp, q) {
+										covered = true
+									}
+									if c14IsPrefix(q, pp) {
+										leads = true
+									}
+								}
+								got := x.PathInMask(desc, qs)
+								want := covered || leads
+								if m.Black {
+									want = !covered
+								}
+								if got != want {
+									fail("path-membership", "path-membership", "%s (black=%v) built from %q: PathInMask(%q) = %v, the set of paths prescribes %v", who, m.Black, m.Paths, qs, got, want)
+									break
+								}
+								nProbes++
+							}
 						}
 					}
 				}
+				checkMembership(fm, "the mask")
 				// (i) stable text: again on the same mask, and on a second mask from the same paths
 				j2, _ := fm.MarshalJSON()
 				if !bytes.Equal(j, j2) {
@@ -594,6 +602,7 @@ func (c14Driver) Run(spec *simrt.Spec, agg *Agg, keep bool) *Outcome {
 				if a := c14Ans(back); a != refs[i].ans {
 					fail("roundtrip-differs", "roundtrip-differs", "after JSON round trip the mask answers differently; paths %q black=%v: %s", m.Paths, m.Black, firstDiff(refs[i].ans, a))
 				}
+				checkMembership(back, "the mask after a JSON round trip")
 				j4, _ := back.MarshalJSON()
 				if !bytes.Equal(j, j4) {
 					fail("unstable-json", "unstable-json:roundtrip", "the round-tripped mask marshals differently: %s vs %s", clip(string(j)), clip(string(j4)))
